@@ -8,6 +8,7 @@ package comp
 //
 // Ops (also the replay format):
 //   case <Type> direct r=<0|1> p=<0|1> old=<items> new=<items> fp=<filter> fd=<filter>     one call of the per-type UpdateList on a fresh store
+//   case <Type> tricky …   the same with adversarial concrete identifier values (updTrickyFill); `hist <Type> fd-tricky` likewise
 //   hist <Type> <fd|local|reply|notify>                                                    a fresh store / feature for the steps that follow
 //   step r=<0|1> p=<0|1> new=<items> fp=<filter> fd=<filter>                               one update on that store (old = what the API returns before)
 // items: `.` empty list, `;` between items, `,` between fields, `-` absent field; filter: N | E | F:<sel|N>:<el|N>.
@@ -139,6 +140,7 @@ func updCloneList(l updList) updList {
 type updCodec struct {
 	ptr     map[uintptr]int // identity of every pointer / slice the codec allocated -> abstract value
 	byValue bool            // decode by value only (after a JSON round trip identities mean nothing)
+	tricky  bool            // identifier fields get adversarial concrete values (updTrickyFill): separators, empty strings, max uint
 }
 
 func newUpdCodec() *updCodec { return &updCodec{ptr: map[uintptr]int{}} }
@@ -227,6 +229,89 @@ func updRead(v reflect.Value, depth int) (int, bool) {
 	return 0, false
 }
 
+// updTrickyFill: the concrete value of an IDENTIFIER field for abstract value n when the codec is in tricky mode.
+// The code identifies items by a STRING built from the identifier parts (hashKey: decimal numbers, strings and
+// address texts joined with '|'); the model identifies them by the tuple of abstract values. The palettes below
+// map distinct abstract values to distinct concrete values chosen to provoke collisions of that string if there
+// were any: numbers whose decimal texts are prefixes / concatenations of each other and the largest uint (the
+// palette is monotone, so the numeric order is the model's), strings that are empty, are or contain the separator
+// or look like numbers, addresses whose device part contains the punctuation of the address text.
+func updTrickyFill(f reflect.Value, n int) bool {
+	if f.Kind() != reflect.Ptr {
+		return false
+	}
+	p := reflect.New(f.Type().Elem())
+	e := p.Elem()
+	dev := func(sv string) reflect.Value {
+		v := reflect.New(reflect.TypeOf(model.AddressDeviceType("")))
+		v.Elem().SetString(sv)
+		return v
+	}
+	ents := func(l ...uint) []model.AddressEntityType {
+		var o []model.AddressEntityType
+		for _, x := range l {
+			o = append(o, model.AddressEntityType(x))
+		}
+		return o
+	}
+	switch e.Kind() {
+	case reflect.Uint:
+		pal := []uint64{1, 11, 111, ^uint64(0)}
+		if n >= len(pal) {
+			return false
+		}
+		e.SetUint(pal[n])
+	case reflect.String:
+		pal := []string{"", "|", "a|b", "1", "1|2", "0|"}
+		if n >= len(pal) {
+			return false
+		}
+		e.SetString(pal[n])
+	case reflect.Struct:
+		switch v := p.Interface().(type) {
+		case *model.DeviceAddressType:
+			pal := []string{"d", "|", "d|", "d:[1]:"}
+			if n >= len(pal) {
+				return false
+			}
+			v.Device = dev(pal[n]).Interface().(*model.AddressDeviceType)
+		case *model.EntityAddressType:
+			switch n {
+			case 0:
+				v.Device, v.Entity = dev("d").Interface().(*model.AddressDeviceType), ents(1)
+			case 1:
+				v.Device = dev("d:[1]:").Interface().(*model.AddressDeviceType)
+			case 2:
+				v.Device, v.Entity = dev("d").Interface().(*model.AddressDeviceType), ents(1, 1)
+			case 3:
+				v.Device, v.Entity = dev("d").Interface().(*model.AddressDeviceType), ents(11)
+			default:
+				return false
+			}
+		case *model.FeatureAddressType:
+			one, eleven := model.AddressFeatureType(1), model.AddressFeatureType(11)
+			switch n {
+			case 0:
+				v.Device, v.Entity, v.Feature = dev("d").Interface().(*model.AddressDeviceType), ents(1), &one
+			case 1:
+				v.Device, v.Entity, v.Feature = dev("d").Interface().(*model.AddressDeviceType), ents(1), &eleven
+			case 2:
+				v.Device, v.Entity = dev("d").Interface().(*model.AddressDeviceType), ents(1, 1)
+			case 3:
+				v.Device = dev("d:[1]:1").Interface().(*model.AddressDeviceType)
+			default:
+				return false
+			}
+		default:
+			return false
+		}
+	default:
+		return false
+	}
+	f.Set(p)
+	return true
+}
+
 // field sets field f (pointer or slice typed) to the canonical non-nil value indexed by n.
 func (c *updCodec) field(f reflect.Value, n int) {
 	updFill(f, n, 0)
@@ -242,10 +327,23 @@ func (c *updCodec) item(s *h.UpdShape, a updItem) reflect.Value {
 	it := reflect.New(s.ItemT).Elem()
 	for i, x := range a {
 		if x >= 0 && i < it.NumField() {
+			if c.tricky && updIsKey(s, i) && updTrickyFill(it.Field(i), x) {
+				c.ptr[it.Field(i).Pointer()] = x
+				continue
+			}
 			c.field(it.Field(i), x)
 		}
 	}
 	return it
+}
+
+func updIsKey(s *h.UpdShape, i int) bool {
+	for _, k := range s.Keys {
+		if k.Idx == i {
+			return true
+		}
+	}
+	return false
 }
 
 // list builds a *ListT holding the items (nil slice for the empty list).
@@ -329,6 +427,10 @@ func (c *updCodec) filter(s *h.UpdShape, del bool, f updFilter) *model.FilterTyp
 		sv := reflect.New(s.SelT)
 		for j, x := range f.sel {
 			if x >= 0 && j < s.SelT.NumField() {
+				if c.tricky && j < len(s.SelIdx) && s.SelIdx[j] >= 0 && updIsKey(s, s.SelIdx[j]) &&
+					sv.Elem().Field(j).Type() == s.ItemT.Field(s.SelIdx[j]).Type && updTrickyFill(sv.Elem().Field(j), x%1000) {
+					continue
+				}
 				updFill(sv.Elem().Field(j), x%1000, 0)
 			}
 		}
@@ -919,6 +1021,7 @@ func (w *updWorld) runCase(op string, done []string) bool {
 	want := w.ask(s, line)
 
 	c := newUpdCodec()
+	c.tricky = f[2] == "tricky"
 	store := c.list(s, old)
 	orig := reflect.ValueOf(store.Elem().FieldByName(s.ListField).Interface()) // the slice header before the call
 	call := func(c *updCodec) (ret any, ok bool, pan any) {
@@ -956,7 +1059,7 @@ func (w *updWorld) runCase(op string, done []string) bool {
 		w.stats["changed"]++
 	}
 	w.r.Eval(shape+":"+outcome, nontrivial)
-	w.stats["path:direct"]++
+	w.stats["path:"+f[2]]++
 	if strings.HasPrefix(want, "panic") {
 		w.stats["model-panic:"+strings.TrimPrefix(want, "panic ")]++
 	}
@@ -986,6 +1089,7 @@ func (w *updWorld) runCase(op string, done []string) bool {
 		}
 		w.judge(done, shape, old, items, fp, fd, after, false, func() (updList, bool) {
 			c2 := newUpdCodec()
+			c2.tricky = c.tricky
 			for p, n := range c.ptr {
 				c2.ptr[p] = n
 			}
@@ -1007,7 +1111,8 @@ func (w *updWorld) startHist(op string) {
 	if s == nil || s.Scalar || len(s.Problems) > 0 {
 		panic("unknown or unsupported list type in " + op)
 	}
-	w.s, w.path, w.c = s, f[2], newUpdCodec()
+	w.s, w.path, w.c = s, strings.TrimSuffix(f[2], "-tricky"), newUpdCodec()
+	w.c.tricky = strings.HasSuffix(f[2], "-tricky") // adversarial identifier values (direct FunctionData path only)
 	fct := model.FunctionType(s.Fct)
 	switch w.path {
 	case "fd":
@@ -1873,6 +1978,102 @@ func updCheckClassification(w *updWorld, shapes []*h.UpdShape) {
 	w.r.Info["selector_field_classification"] = kinds
 }
 
+// updIdentityProbes replays on the real code the kernel-checked statements of lean/Spine/HashKey.lean about the
+// identity the code computes (hashKey): the collisions that exist (items whose identifier is incomplete — the hash
+// is the longest present prefix — and the degenerate address without / with an empty device part) and a sample of
+// the pairs proved distinct. Each probe merges [a] with [complete, b] through the real UpdateList and tells from the
+// length of the result whether a and b were taken for one item.
+func updIdentityProbes(w *updWorld) map[string]string {
+	obs := map[string]string{}
+	u := func(v uint) *model.ElectricalConnectionIdType { x := model.ElectricalConnectionIdType(v); return &x }
+	pid := func(v uint) *model.ElectricalConnectionParameterIdType {
+		x := model.ElectricalConnectionParameterIdType(v)
+		return &x
+	}
+	cid := func(v uint) *model.ElectricalConnectionCharacteristicIdType {
+		x := model.ElectricalConnectionCharacteristicIdType(v)
+		return &x
+	}
+	mergeChar := func(a, b model.ElectricalConnectionCharacteristicDataType) int {
+		st := &model.ElectricalConnectionCharacteristicListDataType{ElectricalConnectionCharacteristicData: []model.ElectricalConnectionCharacteristicDataType{a}}
+		first := model.ElectricalConnectionCharacteristicDataType{ElectricalConnectionId: u(9), ParameterId: pid(9), CharacteristicId: cid(9)}
+		nw := &model.ElectricalConnectionCharacteristicListDataType{ElectricalConnectionCharacteristicData: []model.ElectricalConnectionCharacteristicDataType{first, b}}
+		st.UpdateList(false, true, nw, model.NewFilterTypePartial(), nil)
+		return len(st.ElectricalConnectionCharacteristicData)
+	}
+	same := func(n int) string { return map[bool]string{true: "ONE item", false: "two items"}[n == 2] }
+	ch := func(a, b, c *uint) model.ElectricalConnectionCharacteristicDataType {
+		var it model.ElectricalConnectionCharacteristicDataType
+		if a != nil {
+			it.ElectricalConnectionId = u(*a)
+		}
+		if b != nil {
+			it.ParameterId = pid(*b)
+		}
+		if c != nil {
+			it.CharacteristicId = cid(*c)
+		}
+		return it
+	}
+	p := func(v uint) *uint { return &v }
+	obs["(1,-,3) vs (1,-,4): incomplete identifiers with the same present prefix"] = same(mergeChar(ch(p(1), nil, p(3)), ch(p(1), nil, p(4))))
+	obs["(-,2,3) vs (-,5,6): identifiers without the first part"] = same(mergeChar(ch(nil, p(2), p(3)), ch(nil, p(5), p(6))))
+	obs["(1,2,-) vs (1,2,3): a prefix and its completion"] = same(mergeChar(ch(p(1), p(2), nil), ch(p(1), p(2), p(3))))
+	obs["(12,3,4) vs (1,23,4): decimal texts that concatenate alike"] = same(mergeChar(ch(p(12), p(3), p(4)), ch(p(1), p(23), p(4))))
+	obs["(1,2,3) vs (1,2,3): the same complete identifier"] = same(mergeChar(ch(p(1), p(2), p(3)), ch(p(1), p(2), p(3))))
+	// measurement: numeric + string part
+	mergeMeas := func(a, b model.MeasurementDataType) int {
+		st := &model.MeasurementListDataType{MeasurementData: []model.MeasurementDataType{a}}
+		first := model.MeasurementDataType{MeasurementId: util.Ptr(model.MeasurementIdType(9)), ValueType: util.Ptr(model.MeasurementValueTypeType("x"))}
+		nw := &model.MeasurementListDataType{MeasurementData: []model.MeasurementDataType{first, b}}
+		st.UpdateList(false, true, nw, model.NewFilterTypePartial(), nil)
+		return len(st.MeasurementData)
+	}
+	ms := func(id uint, vt *string) model.MeasurementDataType {
+		it := model.MeasurementDataType{MeasurementId: util.Ptr(model.MeasurementIdType(id))}
+		if vt != nil {
+			it.ValueType = util.Ptr(model.MeasurementValueTypeType(*vt))
+		}
+		return it
+	}
+	sp := func(v string) *string { return &v }
+	obs["(1,\"\") vs (1,-): empty string part vs absent part"] = same(mergeMeas(ms(1, sp("")), ms(1, nil)))
+	obs["(1,\"2|x\") vs (1,\"2\"): string part containing the separator"] = same(mergeMeas(ms(1, sp("2|x")), ms(1, sp("2"))))
+	obs["(1,\"|\") vs (1,\"\"): separator vs empty"] = same(mergeMeas(ms(1, sp("|")), ms(1, sp(""))))
+	// device description: struct key
+	mergeDev := func(a, b *model.DeviceAddressType) int {
+		st := &model.NetworkManagementDeviceDescriptionListDataType{NetworkManagementDeviceDescriptionData: []model.NetworkManagementDeviceDescriptionDataType{{DeviceAddress: a, Label: util.Ptr(model.LabelType("a"))}}}
+		first := model.NetworkManagementDeviceDescriptionDataType{DeviceAddress: &model.DeviceAddressType{Device: util.Ptr(model.AddressDeviceType("zzz"))}}
+		nw := &model.NetworkManagementDeviceDescriptionListDataType{NetworkManagementDeviceDescriptionData: []model.NetworkManagementDeviceDescriptionDataType{first, {DeviceAddress: b, Label: util.Ptr(model.LabelType("b"))}}}
+		st.UpdateList(false, true, nw, model.NewFilterTypePartial(), nil)
+		return len(st.NetworkManagementDeviceDescriptionData)
+	}
+	obs["deviceAddress{} vs deviceAddress{device:\"\"}: absent vs empty device part (degenerate addresses)"] = same(mergeDev(&model.DeviceAddressType{}, &model.DeviceAddressType{Device: util.Ptr(model.AddressDeviceType(""))}))
+	obs["no deviceAddress vs deviceAddress{}: no identifier vs an address without device part"] = same(mergeDev(nil, &model.DeviceAddressType{}))
+	obs["deviceAddress{device:\"d\"} vs deviceAddress{device:\"d|\"}"] = same(mergeDev(&model.DeviceAddressType{Device: util.Ptr(model.AddressDeviceType("d"))}, &model.DeviceAddressType{Device: util.Ptr(model.AddressDeviceType("d|"))}))
+	// what lean/Spine/HashKey.lean proves / refutes
+	want := map[string]string{
+		"(1,-,3) vs (1,-,4): incomplete identifiers with the same present prefix":                           "ONE item",
+		"(-,2,3) vs (-,5,6): identifiers without the first part":                                            "ONE item",
+		"(1,2,-) vs (1,2,3): a prefix and its completion":                                                   "two items",
+		"(12,3,4) vs (1,23,4): decimal texts that concatenate alike":                                        "two items",
+		"(1,2,3) vs (1,2,3): the same complete identifier":                                                  "ONE item",
+		"(1,\"\") vs (1,-): empty string part vs absent part":                                               "two items",
+		"(1,\"2|x\") vs (1,\"2\"): string part containing the separator":                                    "two items",
+		"(1,\"|\") vs (1,\"\"): separator vs empty":                                                         "two items",
+		"deviceAddress{} vs deviceAddress{device:\"\"}: absent vs empty device part (degenerate addresses)": "ONE item",
+		"no deviceAddress vs deviceAddress{}: no identifier vs an address without device part":              "ONE item",
+		"deviceAddress{device:\"d\"} vs deviceAddress{device:\"d|\"}":                                       "two items",
+	}
+	for k, v := range obs {
+		w.r.Eval("identity-probe", "")
+		if want[k] != v {
+			w.r.Mismatch([]string{"identity probe: " + k}, v, want[k], "the identity the real hashKey computes differs from what lean/Spine/HashKey.lean proves for this pair")
+		}
+	}
+	return obs
+}
+
 // ---------------------------------------------------------------- the test
 
 func TestUpdate(t *testing.T) {
@@ -1912,6 +2113,7 @@ func TestUpdate(t *testing.T) {
 		usable = append(usable, s)
 	}
 	updCheckClassification(w, usable)
+	r.Info["identity_probes"] = updIdentityProbes(w)
 	r.Info["list_types"] = len(w.order)
 	r.Info["list_types_driven"] = len(usable)
 	r.Info["list_types_skipped"] = skipped
@@ -1968,6 +2170,12 @@ func TestUpdate(t *testing.T) {
 		}
 		w.runUpdOps([]string{"case NetworkManagementDeviceDescriptionListDataType direct r=0 p=1 old=0,1,-,-,-,-,-,-,-,-,-;1,2,-,-,-,-,-,-,-,-,- new=. fp=N fd=F:" + sel + ":N"})
 	}
+	// incomplete identifiers (DESIGN §8 C02 observation; lean/Spine/HashKey.lean c02_partial_identifier_collision): the
+	// stored (1,-,3) and the incoming (1,-,2) share the hash of their present prefix; the update overwrites the stored item
+	if s := w.shapes["ElectricalConnectionCharacteristicListDataType"]; s != nil && len(s.Problems) == 0 && s.N == 7 && len(s.Keys) == 3 {
+		w.runUpdOps([]string{"case ElectricalConnectionCharacteristicListDataType direct r=0 p=1 old=1,-,3,-,-,0,- new=2,2,2,-,-,-,-;1,-,2,-,-,1,- fp=E fd=N"})
+		w.runUpdOps([]string{"case ElectricalConnectionCharacteristicListDataType tricky r=0 p=1 old=2,0,1,-,-,0,-;1,1,0,-,-,-,- new=3,1,1,-,-,-,-;2,0,1,-,-,1,- fp=E fd=N"})
+	}
 	lc := "LoadControlLimitListDataType"
 	w.runUpdOps([]string{"hist " + lc + " fd", "step r=0 p=1 new=2,1,-,-,-;1,1,-,-,- fp=N fd=N"})
 	w.runUpdOps([]string{"hist " + lc + " local", "step r=0 p=1 new=1,1,1,-,-;2,1,0,-,- fp=N fd=N", "step r=0 p=1 new=-,-,0,-,- fp=F:1:N fd=F:2:N"})
@@ -1988,6 +2196,16 @@ func TestUpdate(t *testing.T) {
 		for i := 0; i < perShape/4; i++ {
 			w.runUpdOps([]string{g.caseOp("partial+elements")})
 		}
+		// the same generator with adversarial identifier values (separators, empty strings, max uint, addresses
+		// whose device part contains the address punctuation): the identity the code computes (hashKey string)
+		// must be the identity of the tuple
+		if len(s.Keys) > 0 {
+			for _, shape := range updShapesAll {
+				for i := 0; i < perShape/4; i++ {
+					w.runUpdOps([]string{strings.Replace(g.caseOp(shape), " direct ", " tricky ", 1)})
+				}
+			}
+		}
 	}
 	// ---- histories through FunctionData (every registered type), local API and datagrams
 	nHist := h.Scale(3, 24)
@@ -1999,6 +2217,9 @@ func TestUpdate(t *testing.T) {
 		g := updGen{rng, s}
 		for i := 0; i < nHist; i++ {
 			w.runUpdOps(g.history("fd", 10))
+		}
+		if len(s.Keys) > 0 {
+			w.runUpdOps(g.history("fd-tricky", 10))
 		}
 	}
 	// JSON round trip of the codec decides which types can be driven through datagrams
